@@ -37,7 +37,8 @@ import (
 var order = []string{"fm", "assign", "fill", "db", "da", "theme"}
 
 var (
-	vtypes    = []string{"string", "int", "bool", "list"}
+	vtypes    = []string{"string", "int", "bool", "list", "map"}
+	ctors     = []string{"newfs", "withfs"} // vuego.NewFS(fsys) | vuego.New(vuego.WithFS(fsys))
 	positions = []string{"interp", "expr", "vif", "attr", "get"}
 	// Fill argument kind / how the key addresses it.
 	//   map/key     map[string]any{"kv": v}                         key "kv"
@@ -52,7 +53,8 @@ var (
 type CaseA struct {
 	Have  []string          `json:"have"`            // sources that define the key (subset of order)
 	Vals  map[string]vals.V `json:"vals"`            // the value each of them gives it
-	VType string            `json:"vtype"`           // string | int | bool | list
+	VType string            `json:"vtype"`           // string | int | bool | list | map
+	Ctor  string            `json:"ctor,omitempty"`  // "" / newfs = vuego.NewFS(fsys); withfs = vuego.New(vuego.WithFS(fsys))
 	Fill  string            `json:"fill"`            // map | struct | ptr
 	Addr  string            `json:"addr"`            // key | name | tag | field
 	Pos   string            `json:"pos"`             // interp | expr | vif | attr | get
@@ -123,10 +125,38 @@ type (
 		Fv    []string `json:"kv"`
 		Extra string   `json:"extra"`
 	}
+	nMap struct {
+		Kv    map[string]any
+		Extra string
+	}
+	tMap struct {
+		Fv    map[string]any `json:"kv"`
+		Extra string         `json:"extra"`
+	}
 	decoyS struct {
 		Zother string `json:"zother"`
 	}
 )
+
+// tokens are the recognisable strings a value consists of.
+func tokens(v vals.V) []string {
+	switch {
+	case v.M != nil:
+		keys := make([]string, 0, len(v.M))
+		for k := range v.M {
+			keys = append(keys, k)
+		}
+		sort.Strings(keys)
+		out := make([]string, 0, len(keys))
+		for _, k := range keys {
+			out = append(out, v.M[k].S)
+		}
+		return out
+	case v.L != nil:
+		return strsOf(v)
+	}
+	return []string{v.S}
+}
 
 func strsOf(v vals.V) []string {
 	out := make([]string, len(v.L))
@@ -178,6 +208,15 @@ func (c CaseA) fillArg(v vals.V) (any, error) {
 			x := nList{strsOf(v), "x"}
 			s, p = x, &x
 		}
+	case "map":
+		m, _ := v.Go().(map[string]any)
+		if tagged {
+			x := tMap{m, "x"}
+			s, p = x, &x
+		} else {
+			x := nMap{m, "x"}
+			s, p = x, &x
+		}
 	default:
 		return nil, fmt.Errorf("bad vtype %q", c.VType)
 	}
@@ -197,13 +236,25 @@ func (c CaseA) decoyFill() any {
 	return decoyS{"decoyfill"}
 }
 
+
 // yamlOf renders "key: value" for a YAML source.
 func yamlOf(key string, v vals.V) string {
-	switch v.K {
-	case "string", "int", "bool":
-		return key + ": " + v.S + "\n"
+	switch {
+	case v.M != nil:
+		keys := make([]string, 0, len(v.M))
+		for k := range v.M {
+			keys = append(keys, k)
+		}
+		sort.Strings(keys)
+		var parts []string
+		for _, k := range keys {
+			parts = append(parts, k+": "+v.M[k].S)
+		}
+		return key + ": {" + strings.Join(parts, ", ") + "}\n"
+	case v.L != nil:
+		return key + ": [" + strings.Join(strsOf(v), ", ") + "]\n"
 	}
-	return key + ": [" + strings.Join(strsOf(v), ", ") + "]\n"
+	return key + ": " + v.S + "\n"
 }
 
 // lit is the expression literal of a scalar.
@@ -214,30 +265,69 @@ func lit(v vals.V) string {
 	return v.S
 }
 
+func (c CaseA) composite() bool { return c.VType == "list" || c.VType == "map" }
+
+// probes returns, for list and map values, the two paths read below the key, what the value of
+// source src holds there, and whether that source's value has the path at all.
+//
+//	list: k[0], k[1]                 (every source gives a two-element list)
+//	map:  k.x,  k.only<winner>       (every source gives {x: M<src>, only<src>: O<src>}; the docs say
+//	                                  overrides replace the whole top-level value, nothing is merged)
+func (c CaseA) probes() [2]string {
+	k := c.key()
+	if c.VType == "list" {
+		return [2]string{k + "[0]", k + "[1]"}
+	}
+	w, _, _ := c.winner()
+	return [2]string{k + ".x", k + ".only" + w}
+}
+
+func (c CaseA) probeValues(src string) [2]string {
+	v := c.Vals[src]
+	if c.VType == "list" {
+		it := strsOf(v)
+		for len(it) < 2 {
+			it = append(it, "")
+		}
+		return [2]string{it[0], it[1]}
+	}
+	return [2]string{v.M["x"].S, v.M["only"+src].S}
+}
+
 // body builds the page body for the read position.
 func (c CaseA) body() string {
 	k := c.key()
-	_, wv, any := c.winner()
+	wsrc, wv, any := c.winner()
 	var b strings.Builder
 	b.WriteString("<div>\n")
 	srcs := append([]string(nil), c.Have...)
 	sort.Strings(srcs)
 	switch {
-	case c.VType == "list":
+	case c.composite():
+		p := c.probes()
 		switch c.Pos {
 		case "interp":
-			fmt.Fprintf(&b, `<p data-m="v0">{{ %s[0] }}</p><p data-m="v1">{{ %s[1] }}</p><i data-m="it" v-for="x in %s">{{ x }}</i>`, k, k, k)
+			fmt.Fprintf(&b, `<p data-m="v0">{{ %s }}</p><p data-m="v1">{{ %s }}</p>`, p[0], p[1])
+			if c.VType == "list" {
+				fmt.Fprintf(&b, `<i data-m="it" v-for="x in %s">{{ x }}</i>`, k)
+			} else {
+				for _, s := range srcs {
+					if s != wsrc {
+						fmt.Fprintf(&b, `<p data-m="o-%s">{{ %s.only%s }}</p>`, s, k, s)
+					}
+				}
+			}
 		case "expr":
-			fmt.Fprintf(&b, `<p data-m="v0">{{ %s[0] + '' }}</p><p data-m="v1">{{ %s[1] + '' }}</p>`, k, k)
+			fmt.Fprintf(&b, `<p data-m="v0">{{ %s + '' }}</p><p data-m="v1">{{ %s + '' }}</p>`, p[0], p[1])
 			if any {
-				fmt.Fprintf(&b, `<p data-m="w">{{ %s[0] == '%s' ? 'hit' : 'miss' }}</p>`, k, wv.L[0].S)
+				fmt.Fprintf(&b, `<p data-m="w">{{ %s == '%s' ? 'hit' : 'miss' }}</p>`, p[0], c.probeValues(wsrc)[0])
 			}
 		case "vif":
 			for _, s := range srcs {
-				fmt.Fprintf(&b, `<b data-m="is-%s" v-if="%s[0] == '%s'">x</b>`, s, k, c.Vals[s].L[0].S)
+				fmt.Fprintf(&b, `<b data-m="is-%s" v-if="%s == '%s'">x</b>`, s, p[0], c.probeValues(s)[0])
 			}
 		case "attr":
-			fmt.Fprintf(&b, `<p data-m="v1" :data-x="%s[1]">x</p>`, k)
+			fmt.Fprintf(&b, `<p data-m="v1" :data-x="%s">x</p>`, p[1])
 		}
 	default:
 		switch c.Pos {
@@ -284,7 +374,8 @@ func (c CaseA) files() map[string]string {
 		page = "---\nzother: decoyfm\n---\n"
 	}
 	f["page.vuego"] = page + c.body()
-	for src, name := range map[string]string{"da": "data/a.yml", "db": "data/b.yml", "theme": "theme.yml"} {
+	for _, sn := range [][2]string{{"da", "data/a.yml"}, {"db", "data/b.yml"}, {"theme", "theme.yml"}} {
+		src, name := sn[0], sn[1]
 		switch {
 		case c.has(src):
 			f[name] = yamlOf(k, c.Vals[src]) + "unrelated" + src + ": u\n"
@@ -295,19 +386,27 @@ func (c CaseA) files() map[string]string {
 	return f
 }
 
-func textOf(v vals.V) string { return v.S }
-
 func checkA(c CaseA) error {
 	for _, s := range c.Have {
-		if _, ok := c.Vals[s]; !ok {
+		v, ok := c.Vals[s]
+		if !ok {
 			return fmt.Errorf("malformed case: source %q has no value", s)
+		}
+		if (c.VType == "list" && len(v.L) != 2) || (c.VType == "map" && (v.M["x"].S == "" || v.M["only"+s].S == "")) {
+			return fmt.Errorf("malformed case: value of source %q does not have the shape of vtype %s", s, c.VType)
 		}
 	}
 	k := c.key()
 	wsrc, wv, any := c.winner()
 	fsys := memfs.FromMap(c.files())
 
-	tpl := vuego.NewFS(fsys).Load("page.vuego")
+	var base vuego.Template
+	if c.Ctor == "withfs" {
+		base = vuego.New(vuego.WithFS(fsys)) // docs/data-loading.md: config is loaded with NewFS or New(WithFS(...))
+	} else {
+		base = vuego.NewFS(fsys)
+	}
+	tpl := base.Load("page.vuego")
 	switch {
 	case c.has("fill"):
 		arg, err := c.fillArg(c.Vals["fill"])
@@ -338,13 +437,9 @@ func checkA(c CaseA) error {
 			if s == wsrc {
 				continue
 			}
-			toks := []string{c.Vals[s].S}
-			if c.VType == "list" {
-				toks = strsOf(c.Vals[s])
-			}
-			for _, tok := range toks {
-				if strings.Contains(got, tok) {
-					return fmt.Errorf("%s: saw %q, which is the value given by the lower-precedence source %q", desc, got, s)
+			for _, tok := range tokens(c.Vals[s]) {
+				if tok != "" && strings.Contains(got, tok) {
+					return fmt.Errorf("%s: saw %q, which contains the value given by the lower-precedence source %q", desc, got, s)
 				}
 			}
 		}
@@ -359,17 +454,17 @@ func checkA(c CaseA) error {
 		if !any {
 			return nil // undefined everywhere: the result of Get is not specified beyond "nothing leaks"
 		}
-		if c.VType == "list" {
-			// the string form of a list is not specified: the winner's items must be mentioned
-			for _, tok := range strsOf(wv) {
+		if c.composite() {
+			// the string form of a list / map is not specified: the winner's items must be mentioned
+			for _, tok := range tokens(wv) {
 				if !strings.Contains(got, tok) {
-					return fmt.Errorf("Get: %s: got %q, want the items of %v", desc, got, strsOf(wv))
+					return fmt.Errorf("Get: %s: got %q, want it to mention %v", desc, got, tokens(wv))
 				}
 			}
 			return nil
 		}
-		if got != textOf(wv) {
-			return fmt.Errorf("Get: %s: got %q, want %q", desc, got, textOf(wv))
+		if got != wv.S {
+			return fmt.Errorf("Get: %s: got %q, want %q", desc, got, wv.S)
 		}
 		return nil
 	}
@@ -388,90 +483,92 @@ func checkA(c CaseA) error {
 	if err != nil {
 		return fmt.Errorf("output does not parse: %v", err)
 	}
-	marks := hx.Markers(nodes)
 	byID := map[string][]hx.Marker{}
-	var ids []string
-	for _, m := range marks {
+	var hits []string
+	for _, m := range hx.Markers(nodes) {
 		byID[m.ID] = append(byID[m.ID], m)
-		ids = append(ids, m.ID)
+		if strings.HasPrefix(m.ID, "is-") {
+			hits = append(hits, m.ID)
+		}
 	}
-	text := func(id string) (string, error) {
+	one := func(id string) (hx.Marker, error) {
 		ms := byID[id]
 		if len(ms) != 1 {
-			return "", fmt.Errorf("render (%s): %s: element %q appears %d times in %q", c.Pos, desc, id, len(ms), out.String())
+			return hx.Marker{}, fmt.Errorf("render (%s): %s: element %q appears %d times in %q", c.Pos, desc, id, len(ms), out.String())
 		}
-		return ms[0].Text, nil
+		return ms[0], nil
 	}
 	wantText := func(id, want string) error {
-		got, err := text(id)
+		m, err := one(id)
 		if err != nil {
 			return err
 		}
-		if got != want {
-			return fmt.Errorf("render (%s): %s: element %q shows %q, want %q", c.Pos, desc, id, got, want)
+		if m.Text != want {
+			return fmt.Errorf("render (%s): %s: element %q shows %q, want %q", c.Pos, desc, id, m.Text, want)
+		}
+		return nil
+	}
+	wantAttr := func(id, want string) error {
+		m, err := one(id)
+		if err != nil {
+			return err
+		}
+		if got, has := m.Attrs["data-x"]; !has || got != want {
+			return fmt.Errorf("render (%s): %s: bound attribute is %q (present=%v), want %q", c.Pos, desc, got, has, want)
+		}
+		return nil
+	}
+	wantHit := func(want string) error {
+		if len(hits) != 1 || hits[0] != want {
+			return fmt.Errorf("render (vif): %s: comparisons that held: %v, want [%s]", desc, hits, want)
 		}
 		return nil
 	}
 	if !any {
-		// no source defines the key: only "nothing leaks" (checked above) and no comparison hits
-		for _, id := range ids {
-			if strings.HasPrefix(id, "is-") {
-				return fmt.Errorf("render (vif): %s: %q matched although no source defines the key", desc, id)
-			}
+		// no source defines the key: only "nothing leaks" (checked above) and no comparison holds
+		if len(hits) > 0 {
+			return fmt.Errorf("render (vif): %s: %v held although no source defines the key", desc, hits)
 		}
 		return nil
 	}
 
-	if c.VType == "list" {
-		items := strsOf(wv)
+	if c.composite() {
+		pv := c.probeValues(wsrc)
 		switch c.Pos {
 		case "interp":
-			if err := wantText("v0", items[0]); err != nil {
+			if err := wantText("v0", pv[0]); err != nil {
 				return err
 			}
-			if err := wantText("v1", items[1]); err != nil {
+			if err := wantText("v1", pv[1]); err != nil {
 				return err
 			}
-			var got []string
-			for _, m := range byID["it"] {
-				got = append(got, m.Text)
-			}
-			if strings.Join(got, ",") != strings.Join(items, ",") {
-				return fmt.Errorf("render (interp): %s: v-for over the key printed %v, want %v", desc, got, items)
-			}
-		case "expr":
-			if err := wantText("v0", items[0]); err != nil {
-				return err
-			}
-			if err := wantText("v1", items[1]); err != nil {
-				return err
-			}
-			if err := wantText("w", "hit"); err != nil {
-				return err
-			}
-		case "vif":
-			var hits []string
-			for _, id := range ids {
-				if strings.HasPrefix(id, "is-") {
-					hits = append(hits, id)
+			if c.VType == "list" {
+				var got []string
+				for _, m := range byID["it"] {
+					got = append(got, m.Text)
+				}
+				if strings.Join(got, ",") != strings.Join(strsOf(wv), ",") {
+					return fmt.Errorf("render (interp): %s: v-for over the key printed %v, want %v", desc, got, strsOf(wv))
 				}
 			}
-			if len(hits) != 1 || hits[0] != "is-"+wsrc {
-				return fmt.Errorf("render (vif): %s: comparisons that held: %v, want [is-%s]", desc, hits, wsrc)
+			// map: the losing sources' private sub-keys are caught by the "losers" scan above
+		case "expr":
+			if err := wantText("v0", pv[0]); err != nil {
+				return err
 			}
+			if err := wantText("v1", pv[1]); err != nil {
+				return err
+			}
+			return wantText("w", "hit")
+		case "vif":
+			return wantHit("is-" + wsrc)
 		case "attr":
-			ms := byID["v1"]
-			if len(ms) != 1 {
-				return fmt.Errorf("render (attr): %s: element missing in %q", desc, out.String())
-			}
-			if got := ms[0].Attrs["data-x"]; got != items[1] {
-				return fmt.Errorf("render (attr): %s: bound attribute is %q, want %q", desc, got, items[1])
-			}
+			return wantAttr("v1", pv[1])
 		}
 		return nil
 	}
 
-	want := textOf(wv)
+	want := wv.S
 	switch c.Pos {
 	case "interp":
 		return wantText("v", want)
@@ -485,48 +582,39 @@ func checkA(c CaseA) error {
 		}
 		return wantText("w", "hit")
 	case "vif":
-		var hits []string
-		for _, id := range ids {
-			if strings.HasPrefix(id, "is-") {
-				hits = append(hits, id)
-			}
-		}
-		wantHit := "is-" + wsrc
+		h := "is-" + wsrc
 		if c.VType == "bool" {
-			wantHit = "is-" + want
+			h = "is-" + want
 		}
-		if len(hits) != 1 || hits[0] != wantHit {
-			return fmt.Errorf("render (vif): %s: comparisons that held: %v, want [%s]", desc, hits, wantHit)
+		if err := wantHit(h); err != nil {
+			return err
 		}
-		// truthiness of the chosen value (docs/syntax.md: 0, false, "", nil are falsey; all values used
-		// here except bool false are non-zero / non-empty)
-		truthy := want != "false" || c.VType != "bool"
+		// truthiness of the chosen value (docs/syntax.md: 0, false, "", nil are falsey; every value
+		// used here except bool false is non-zero / non-empty)
+		truthy := !(c.VType == "bool" && want == "false")
 		_, sawT := byID["truthy"]
 		_, sawF := byID["falsy"]
 		if sawT != truthy || sawF == truthy {
 			return fmt.Errorf("render (vif): %s: v-if=%q rendered=%v, v-if=%q rendered=%v, but the chosen value is %s", desc, k, sawT, "!"+k, sawF, want)
 		}
 	case "attr":
-		ms := byID["v"]
-		if len(ms) != 1 {
-			return fmt.Errorf("render (attr): %s: element missing in %q", desc, out.String())
-		}
-		got, has := ms[0].Attrs["data-x"]
 		if c.VType == "bool" && want == "false" {
 			// whether a false binding is dropped or printed as "false" is not specified
-			if has && got != "false" {
+			m, err := one("v")
+			if err != nil {
+				return err
+			}
+			if got, has := m.Attrs["data-x"]; has && got != "false" {
 				return fmt.Errorf("render (attr): %s: bound attribute is %q for the value false", desc, got)
 			}
 			return nil
 		}
-		if !has || got != want {
-			return fmt.Errorf("render (attr): %s: bound attribute is %q (present=%v), want %q", desc, got, has, want)
-		}
+		return wantAttr("v", want)
 	}
 	return nil
 }
 
-// canonical values: distinct and recognisable per source.
+// canon gives each source a distinct, recognisable value of the type.
 func canon(vt, src string, idx int) vals.V {
 	switch vt {
 	case "string":
@@ -539,6 +627,8 @@ func canon(vt, src string, idx int) vals.V {
 			k = "[]any"
 		}
 		return vals.List(k, vals.Str("L"+src+"1"), vals.Str("L"+src+"2"))
+	case "map":
+		return vals.Map(map[string]vals.V{"x": vals.Str("M" + src), "only" + src: vals.Str("O" + src)})
 	}
 	panic("canon: " + vt)
 }
@@ -546,7 +636,6 @@ func canon(vt, src string, idx int) vals.V {
 // enumA enumerates family A and calls f for each case until f returns false.
 func enumA(rec *ev.Rec, f func(CaseA) bool) {
 	known := kf.Load()
-	_ = known
 	for mask := 0; mask < 1<<len(order); mask++ {
 		var have []string
 		for i, s := range order {
@@ -578,16 +667,18 @@ func enumA(rec *ev.Rec, f func(CaseA) bool) {
 				for _, fm := range fillModes {
 					for _, pos := range positions {
 						for _, decoy := range []bool{false, true} {
-							if len(have) == 0 && pos == "expr" {
-								continue // arithmetic on an undefined variable: unspecified, nothing to assert
-							}
-							c := CaseA{Have: have, Vals: vs, VType: vt, Fill: fm[0], Addr: fm[1], Pos: pos, Decoy: decoy}
-							if id := excludedA(known, c); id != "" {
-								rec.Excluded(id)
-								continue
-							}
-							if !f(c) {
-								return
+							for _, ctor := range ctors {
+								if len(have) == 0 && pos == "expr" {
+									continue // arithmetic on an undefined variable: unspecified, nothing to assert
+								}
+								c := CaseA{Have: have, Vals: vs, VType: vt, Ctor: ctor, Fill: fm[0], Addr: fm[1], Pos: pos, Decoy: decoy}
+								if id := excludedA(known, c); id != "" {
+									rec.Excluded(id)
+									continue
+								}
+								if !f(c) {
+									return
+								}
 							}
 						}
 					}
